@@ -180,7 +180,9 @@ type ragBackend struct{}
 
 func (ragBackend) Name() string { return "rag.ChunkCollection" }
 func (ragBackend) Profile(r *rand.Rand) logical.Profile {
-	return logical.Profile{MinBlocks: 2, MaxBlocks: 8, HeadingHows: []string{"model"}, MaxHeadingLevel: 9,
+	// at most 6 blocks: a run of consecutive paragraphs stays far below the
+	// chunker's 2000-character split limit (splitting is C13's subject)
+	return logical.Profile{MinBlocks: 2, MaxBlocks: 6, HeadingHows: []string{"model"}, MaxHeadingLevel: 9,
 		Lists: true, ListMaxDepth: 4, Tables: true, MaxRows: 5, MaxCols: 5, Spans: true, MultiPara: true, EmptyCells: true,
 		Tab: true, Sym: true, Pipes: true, Backslash: true, Title: true, Styles: 1,
 		BlockBias: []string{"", "tables", "lists", "headings"}[r.Intn(4)]}
